@@ -282,7 +282,9 @@ func C06(p *core.Program, r *core.Report) {
 			Atoms: map[string]string{
 				"empty":    q(`$0 == ""`),
 				"nobase":   q(`$1 == nil`),
-				"fragment": q(`strings.HasPrefix($0,"#")`),
+				// a reference that starts with '#' (spelled with HasPrefix or as a test of the first
+				// byte; the empty string has been returned before)
+				"fragment": `^(strings\.HasPrefix\(\$0,"#"\)|\$0\[0\] == 35)$`,
 				"data":     q(`strings.HasPrefix($0,"data:")`),
 				"js":       q(`strings.HasPrefix($0,"javascript:")`),
 				"uri.ok":   q(pr + `#1 == nil`),
@@ -394,14 +396,14 @@ func checkImageURLSources(p *core.Program, r *core.Report, rule string) {
 // checkSrcsetAgreement: the function that rewrites srcset and the function that lists its URLs
 // must tokenise the attribute with the same regular expression (and nothing else).
 func checkSrcsetAgreement(p *core.Program, r *core.Report, rule string) {
-	for _, key := range []string{domutilPkg + ".makeSrcSetAbsolute", domutilPkg + ".GetSrcSetURLs"} {
+	for _, key := range []string{domutilPkg + ".MakeAllSrcSetAbsolute", domutilPkg + ".GetSrcSetURLs"} {
 		fn := mustInl(p, r, rule, key)
 		if fn == nil {
 			continue
 		}
 		usesRx := false
 		var other []string
-		fns := append([]*ssa.Function{fn}, fn.AnonFuncs...)
+		fns := append([]*ssa.Function{fn}, closuresOf(fn)...)
 		for _, f := range fns {
 			for _, b := range f.Blocks {
 				for _, in := range b.Instrs {
